@@ -38,17 +38,22 @@ NAMES = [
     "canary_pkg.sub.attr", "canary_pkg.sub.func", "canary_pkg.sub", "canary_pkg",
     "os.system", "os.getcwd", "os.path.join", "os.environ", "os", "os.path", "subprocess.Popen", "subprocess.check_output",
     "builtins.eval", "builtins.exec", "builtins.open", "builtins.__import__", "builtins.print", "eval", "exec", "open", "len",
-    "int", "dict", "list", "object", "type", "sys.exit", "sys.modules", "sys", "yaml.load", "yaml.UnsafeLoader", "yaml",
+    "int", "dict", "list", "object", "type", "sys.modules", "sys", "yaml.load", "yaml.UnsafeLoader", "yaml",
     "yaml.constructor.UnsafeConstructor", "datetime.datetime", "datetime", "re.compile", "collections.OrderedDict",
     "", ".", "a b", "nonexistent_module_xyz.attr", "os.nonexistent", "os..system", "1abc", "antigravity.fly", "this.s",
-    "ctypes.CDLL", "pickle.loads", "shutil.rmtree", "importlib.import_module", "code.interact", "types.FunctionType",
+    "ctypes.CDLL", "pickle.loads", "importlib.import_module", "types.FunctionType",
 ]
 
 # the subset of NAMES whose *call* the monitor reports (the others are used legitimately by the library or the harness)
 WATCH = {n for n in NAMES if n.startswith("canary_imported.")} | {
     "os.system", "os.getcwd", "subprocess.Popen", "subprocess.check_output", "builtins.eval", "builtins.exec", "builtins.open",
-    "builtins.__import__", "builtins.print", "eval", "exec", "open", "sys.exit", "pickle.loads", "shutil.rmtree",
-    "importlib.import_module", "ctypes.CDLL", "code.interact"}
+    "builtins.__import__", "builtins.print", "eval", "exec", "open", "pickle.loads",
+    "importlib.import_module", "ctypes.CDLL"}
+
+# names that matter most: resolvable only by importing, or recording what is done to them
+HOT_NAMES = ["canary_unimported.func", "canary_unimported.VALUE", "canary_unimported", "canary_pkg.sub.attr", "canary_pkg.sub.func",
+             "canary_pkg.sub", "canary_pkg", "canary_imported.func", "canary_imported.Obj", "canary_imported.Plain",
+             "canary_imported.ListSub", "os.system", "antigravity.fly", "this.s"]
 
 TAG_CH = set("ABCDEFGHIJKLMNOPQRSTUVWXYZabcdefghijklmnopqrstuvwxyz0123456789-;/?:@&=+$_.~*'()")
 SCALAR_TEXTS = ["", "a", "1", "2.5", "true", "~", "2001-01-01", "x y", "k", "v", "0x1F", "[1]", "os.system", "1+2j", "abc"]
@@ -205,7 +210,7 @@ def render(doc):
 # strategies
 
 def tagrefs(families, names=None, weight_foreign=3):
-    names = st.sampled_from(names or NAMES)
+    names = st.sampled_from(names) if names else st.one_of(st.sampled_from(NAMES), st.sampled_from(HOT_NAMES))
     forms = st.sampled_from(["shorthand", "shorthand", "verbatim", "handle"])
     fams = st.sampled_from(families)
     py = st.tuples(st.just("py"), forms, fams, names)
@@ -223,7 +228,13 @@ def nodes(families, max_leaves=8, names=None, registry_tags=()):
     if registry_tags:
         tr = st.one_of(tr, tr, st.sampled_from(list(registry_tags)).map(lambda t: ("uri", t)))
     anchor = st.sampled_from([False, False, True])
-    scalar = st.tuples(st.just("s"), tr, anchor, st.sampled_from(SCALAR_TEXTS))
+    def name_value(t):
+        # python/name and python/module demand an empty value: give them one most of the time
+        kind, tagref, anc, text, keep = t
+        if tagref is not None and tagref[0] == "py" and tagref[2] in ("name:", "module:") and not keep:
+            text = ""
+        return (kind, tagref, anc, text)
+    scalar = st.tuples(st.just("s"), tr, anchor, st.sampled_from(SCALAR_TEXTS), st.sampled_from([False, False, False, True])).map(name_value)
     plain = st.tuples(st.just("s"), st.none(), st.just(False), st.sampled_from(SCALAR_TEXTS[1:]))
     alias = st.integers(0, 20).map(lambda n: ("a", n))
     leaf = st.one_of(scalar, scalar, plain, alias)
@@ -258,7 +269,7 @@ def documents(families, **kw):
 
 CANARY_DIR = os.path.join(os.path.dirname(os.path.dirname(os.path.abspath(__file__))), "canaries")
 AUDIT_WATCH = ("import", "exec", "compile", "os.system", "os.exec", "os.posix_spawn", "os.spawn", "subprocess.Popen", "open",
-               "os.fork", "ctypes.dlopen", "socket.connect", "os.putenv", "os.remove", "os.rename", "shutil.rmtree", "os.mkdir")
+               "os.fork", "ctypes.dlopen", "socket.connect", "os.putenv", "os.remove", "os.rename", "os.mkdir")
 
 _state = {"armed": False, "events": [], "installed": False}
 
